@@ -18,10 +18,6 @@ type Case struct {
 	Parent *Suite
 }
 
-func (c *Case) FullMatch() bool {
-	return c.Parent.FullMatch
-}
-
 func (c *Case) traverse(enter func(test SuiteOrCase) TraverseOption, leave func(test SuiteOrCase) TraverseOption) TraverseOption {
 	switch enter(c) {
 	case TraverseBreak:
